@@ -9,7 +9,7 @@ from . import _syncpairs as sp
 PROP = "C14"
 LEVEL = "exploration"
 WORKERS = {"quick": 4, "thorough": 16}
-BUDGET = {"quick": 60, "thorough": 600}
+BUDGET = {"quick": 100, "thorough": 600}
 TECHNIQUE = (
     "Hypothesis pair generator forced towards conflicts (file size/mtime cells, flat/nested/mixed-type document "
     "conflicts) x strategies incl. recording custom file / key strategies; verdicts re-implemented by the harness"
